@@ -238,7 +238,13 @@ def check_knn_scan(rep, pre: str, scan: KnnScan, graph: Term, allow_self_skip: b
         has = any((g if pol else mk_not(g)) == self_skip for g, pol in extra)
         rep.fn(pre + "KNN-self-skip", fn, "a node is excluded from its own neighbour list", has,
                "arc creation must skip j == i (otherwise every node is its own nearest neighbour)", line=line)
-    ok_same = scan.index_store.guards[len(base):] == tuple(
+    def nan_skip(gp):
+        """`if isnan(d[k]): continue` after the candidate was written: a NaN never moves out of the scratch slot (every `<`
+        with it is false), so skipping its index store changes nothing that is read later."""
+        g, pol = gp
+        return (not pol) and g[0] == "call" and g[1] in (("mod", "numpy.isnan"), ("mod", "math.isnan")) \
+            and g[2] == (("idx", scan.D, scan.slot),)
+    ok_same = tuple(gp for gp in scan.index_store.guards[len(base):] if not nan_skip(gp)) == tuple(
         gp for gp in ws.guards[len(base):] if not (is_flag(gp[0]) or (gp[0][0] == "not" and is_flag(gp[0][1]))))
     rep.ev(pre + "KNN-pair-guard", scan.index_store, ok_same,
            "the index store must be executed exactly when the distance store is")
@@ -289,7 +295,8 @@ def check_knn_scan(rep, pre: str, scan: KnnScan, graph: Term, allow_self_skip: b
         for t in reads:
             n_reads += 1
             need = ("cmp", "!=", *sorted([K("FLOAT_MAX"), ("idx", scan.D, t[2])], key=repr))
-            ok = has_guard(e.guards, need)
+            # (`d < FLOAT_MAX` is `d != FLOAT_MAX` for a distance: nothing exceeds the largest float)
+            ok = has_guard(e.guards, need) or has_guard(e.guards, ("cmp", "<", ("idx", scan.D, t[2]), K("FLOAT_MAX")))
             rep.ev(pre + "KNN-valid-slot", e, ok,
                    f"index buffer slot '{show(t[2])}' is read without checking that its distance is not FLOAT_MAX "
                    "(fewer than k candidates => stale index)")
